@@ -14,10 +14,16 @@ import (
 // Appendix A restricted to the built-in expiry policies (creating / writing / accessing with one
 // duration): an entry is visible iff it is present and its deadline is after the operation's clock.
 
+// With an asynchronously moving clock (AsyncClock engines) an operation's clock sample lies anywhere
+// in [nowLo, nowHi] (clock at invocation / at return) and a deadline it computes lies in the
+// corresponding interval; the state therefore carries bounds [lo, hi] of the entry's deadline. Each
+// step branches over "the entry was visible to this operation" (possible iff hi > nowLo, and then
+// the deadline is > nowLo) and "it was expired" (possible iff lo <= nowHi, and then the deadline is
+// <= nowHi). With the clock fixed during an operation (rounds) both collapse to the exact model.
 type expState struct {
 	present bool
 	v       int
-	exp     int64
+	lo, hi  int64
 }
 
 type expIn struct {
@@ -27,30 +33,59 @@ type expIn struct {
 	calls    int
 	saw      int
 	sawFound bool
-	now      int64
+	nowLo    int64
+	nowHi    int64
 	d        int64  // the policy's duration
 	pol      string // creating | writing | accessing
 	dur      int64  // setexpires
 	cause    otter.DeletionCause
+	async    bool
 }
 
 func expStep(state, input, output interface{}) []interface{} {
 	s := state.(expState)
 	in := input.(expIn)
-	out := output.(linOut)
-	vis := s.present && s.exp > in.now
+	if in.kind == "evict" {
+		if !s.present || s.v != in.v {
+			return nil
+		}
+		// with a fixed clock an expiration before the deadline is a lie; with a moving clock a
+		// concurrent read may have extended the deadline after the wheel decided (accepted: the
+		// properties forbid seeing an entry after its deadline, not losing a racing extension)
+		if in.cause == otter.CauseExpiration && !in.async && s.lo > in.nowHi {
+			return nil
+		}
+		return []interface{}{expState{}}
+	}
+	// No narrowing of [lo, hi] after an observation: otter's writes decide under the bucket lock but
+	// publish the new node later, and lock-free readers keep working on the old node in between (a
+	// reader with an older clock sample may even move its deadline backwards), so successive
+	// observations of one entry need not be explainable by a single deadline value. The bounds
+	// still decide the property: visible only if the latest possible deadline is ahead of the
+	// operation's earliest clock value, absent only if the earliest possible deadline has passed.
+	var res []interface{}
+	if s.present && s.hi > in.nowLo {
+		res = append(res, expStepVis(s, in, output.(linOut), true)...)
+	}
+	if !s.present || s.lo <= in.nowHi {
+		res = append(res, expStepVis(s, in, output.(linOut), false)...)
+	}
+	return res
+}
+
+func expStepVis(s expState, in expIn, out linOut, vis bool) []interface{} {
 	same := []interface{}{s}
 	expect := func(v int, ok bool) bool { return !out.panic && out.v == v && out.ok == ok }
-	create := func(v int) expState { return expState{true, v, in.now + in.d} }
+	create := func(v int) expState { return expState{true, v, in.nowLo + in.d, in.nowHi + in.d} }
 	update := func(v int) expState {
 		if in.pol == "creating" {
-			return expState{true, v, s.exp}
+			return expState{true, v, s.lo, s.hi}
 		}
-		return expState{true, v, in.now + in.d}
+		return create(v)
 	}
 	read := func() expState {
 		if in.pol == "accessing" {
-			return expState{true, s.v, in.now + in.d}
+			return expState{true, s.v, in.nowLo + in.d, in.nowHi + in.d}
 		}
 		return s
 	}
@@ -92,6 +127,14 @@ func expStep(state, input, output interface{}) []interface{} {
 			return nil
 		}
 		return same
+	case "touch":
+		// the lock-free lookup that ComputeIfAbsent / ComputeIfPresent perform before their table
+		// computation: an unreported read at some point of the call (it extends the deadline under
+		// expire-after-access when it hits)
+		if vis {
+			return []interface{}{read()}
+		}
+		return same
 	case "getquiet":
 		// GetEntryQuietly additionally hides entries that are being replaced at that instant (it
 		// filters nodes that are no longer alive); a miss is therefore always acceptable, a hit must
@@ -113,7 +156,12 @@ func expStep(state, input, output interface{}) []interface{} {
 		// an override that races a write of the same key may be applied to the node that is being
 		// replaced and get lost: both outcomes are accepted (sequentially it is exact: C01 / C12)
 		if vis && in.dur > 0 {
-			return []interface{}{s, expState{true, s.v, in.now + in.dur}}
+			if in.async {
+				// ... and when it is applied to the old node after the racing write copied the deadline
+				// but before it published, readers see it for a while: the bounds are widened
+				return []interface{}{expState{true, s.v, min(s.lo, in.nowLo+in.dur), max(s.hi, in.nowHi+in.dur)}}
+			}
+			return []interface{}{s, expState{true, s.v, in.nowLo + in.dur, in.nowHi + in.dur}}
 		}
 		return same
 	case "compute", "computeifpresent":
@@ -133,10 +181,7 @@ func expStep(state, input, output interface{}) []interface{} {
 		if in.saw != cur || in.sawFound != ok {
 			return nil
 		}
-		st := s
-		if in.kind == "computeifpresent" {
-			st = read() // the fast-path lookup is a read
-		}
+		st := s // the fast-path lookup of ComputeIfPresent is a separate "touch" step
 		switch in.comp {
 		case "write":
 			if !expect(in.v, true) {
@@ -144,7 +189,7 @@ func expStep(state, input, output interface{}) []interface{} {
 			}
 			w := write(in.v)
 			if in.kind == "computeifpresent" && in.pol == "creating" {
-				w.exp = st.exp
+				w.lo, w.hi = st.lo, st.hi
 			}
 			return []interface{}{w}
 		case "inval":
@@ -173,7 +218,7 @@ func expStep(state, input, output interface{}) []interface{} {
 			if !vis || !expect(s.v, true) {
 				return nil
 			}
-			return []interface{}{read()}
+			return same // the lock-free lookup is a separate "touch" step
 		}
 		if vis {
 			return nil
@@ -196,14 +241,6 @@ func expStep(state, input, output interface{}) []interface{} {
 			return same
 		}
 		return nil
-	case "evict":
-		if !s.present || s.v != in.v {
-			return nil
-		}
-		if in.cause == otter.CauseExpiration && s.exp > in.now {
-			return nil // reported as expired before its deadline
-		}
-		return []interface{}{expState{}}
 	}
 	return nil
 }
@@ -243,12 +280,17 @@ func (cr *concRun) checkLinExp(out *ConcOutcome) {
 			continue
 		}
 		in := expIn{kind: op.Kind, v: op.V, comp: op.Comp, calls: h.Res.CompCalls, saw: h.Res.CompSaw, sawFound: h.Res.CompFound,
-			now: h.Now, d: cfg.ExpD, pol: cfg.Expiry, dur: op.D}
+			nowLo: h.Now, nowHi: h.NowRet, d: cfg.ExpD, pol: cfg.Expiry, dur: op.D, async: cr.opts.AsyncClock}
 		if op.Kind == "getentry" {
 			in.kind = "get"
 		}
 		res := linOut{v: h.Res.V, ok: h.Res.Ok, panic: h.Res.Panic}
 		perKey[k] = append(perKey[k], porcupine.Operation{ClientId: h.Task + 1, Input: in, Output: res, Call: c2(h.Call), Return: c2(h.Ret) + 1})
+		if cfg.Expiry == "accessing" && (op.Kind == "computeifabsent" || op.Kind == "computeifpresent") {
+			t := in
+			t.kind = "touch"
+			perKey[k] = append(perKey[k], porcupine.Operation{ClientId: 1000 + len(perKey[k]), Input: t, Output: linOut{}, Call: c2(h.Call), Return: c2(h.Ret) + 1})
+		}
 	}
 	for _, ev := range cr.r.Events {
 		if ev.Atomic && (ev.Cause == otter.CauseOverflow || ev.Cause == otter.CauseExpiration) {
@@ -256,7 +298,7 @@ func (cr *concRun) checkLinExp(out *ConcOutcome) {
 			if end < ev.Seq {
 				end = ev.Seq
 			}
-			perKey[ev.K] = append(perKey[ev.K], porcupine.Operation{ClientId: 0, Input: expIn{kind: "evict", v: ev.V, now: ev.Now, cause: ev.Cause}, Output: linOut{}, Call: c2(ev.Seq), Return: c2(end) + 1})
+			perKey[ev.K] = append(perKey[ev.K], porcupine.Operation{ClientId: 0, Input: expIn{kind: "evict", v: ev.V, nowLo: ev.Now, nowHi: ev.Now, cause: ev.Cause, async: cr.opts.AsyncClock}, Output: linOut{}, Call: c2(ev.Seq), Return: c2(end) + 1})
 		}
 	}
 	keys := make([]int, 0, len(perKey))
@@ -279,9 +321,9 @@ func (cr *concRun) checkLinExp(out *ConcOutcome) {
 			s := ""
 			for _, o := range ops {
 				in := o.Input.(expIn)
-				s += fmt.Sprintf("\n    c%d [%d,%d] now=%d %s v=%d comp=%s calls=%d saw=%d/%v dur=%d cause=%d -> %+v", o.ClientId-1, o.Call/2, o.Return/2, in.now, in.kind, in.v, in.comp, in.calls, in.saw, in.sawFound, in.dur, in.cause, o.Output)
+				s += fmt.Sprintf("\n    c%d [%d,%d] now=[%d,%d] %s v=%d comp=%s calls=%d saw=%d/%v dur=%d cause=%d -> %+v", o.ClientId-1, o.Call/2, o.Return/2, in.nowLo, in.nowHi, in.kind, in.v, in.comp, in.calls, in.saw, in.sawFound, in.dur, in.cause, o.Output)
 			}
-			cr.fail(P("C03"), "lin.expiry-illegal", k, "history of key %d is not explainable by a map with deadlines (policy %s, duration %d):%s", k, cfg.Expiry, cfg.ExpD, s)
+			cr.fail(P("C03", "C02"), "lin.expiry-illegal", k, "history of key %d is not explainable by a map with deadlines (policy %s, duration %d):%s", k, cfg.Expiry, cfg.ExpD, s)
 		}
 	}
 	// how often an operation met an expired-but-unswept entry is reported through the probes
